@@ -99,9 +99,24 @@ func (r *Runner) Step(b Block) BlockOut {
 		r.emit(fmt.Sprintf("TXR %d %s", i, t.Class()))
 	}
 	if out.RawResp != nil {
-		if bz, err := out.RawResp.Marshal(); err == nil {
-			r.emit(fmt.Sprintf("RESP %x", sha256.Sum256(bz)))
+		// the consensus-relevant part of the response: app hash, validator updates, consensus param
+		// updates and, per tx, what CometBFT hashes into LastResultsHash (code, data, gas) plus the
+		// codespace; logs, info strings and events are not part of consensus (a recovered panic puts a
+		// stack trace with addresses into the log)
+		hsh := sha256.New()
+		hsh.Write(out.RawResp.AppHash)
+		for _, tr := range out.RawResp.TxResults {
+			fmt.Fprintf(hsh, "|%d|%x|%d|%d|%s", tr.Code, tr.Data, tr.GasWanted, tr.GasUsed, tr.Codespace)
 		}
+		for _, u := range out.RawResp.ValidatorUpdates {
+			bz, _ := u.Marshal()
+			fmt.Fprintf(hsh, "|u%x", bz)
+		}
+		if out.RawResp.ConsensusParamUpdates != nil {
+			bz, _ := out.RawResp.ConsensusParamUpdates.Marshal()
+			fmt.Fprintf(hsh, "|c%x", bz)
+		}
+		r.emit(fmt.Sprintf("RESP %x", hsh.Sum(nil)))
 	}
 	r.emit(r.N.updStr(out.Updates))
 	prev := r.Sets[h+1]
@@ -334,6 +349,12 @@ func main() {
 			runHistory(w, h, bw)
 		}
 		bw.Flush()
+	case "twin":
+		twinMain(w, os.Args[2:])
+	case "restart":
+		restartMain(w, os.Args[2:])
+	case "ante", "validate", "convert":
+		pureMain(w, os.Args[1:])
 	default:
 		fmt.Fprintln(diag, "unknown subcommand")
 		os.Exit(2)
